@@ -150,6 +150,10 @@ def step (line : String) : String :=
       | some m =>
         tab ("some" :: showNats m.marks :: (List.range (m.ngroups + 1)).map (fun i => showWord (m.group w i)))
     | _, _, _ => "bad-op"
+  | ["FITS", pat, w] =>
+    match parsePat pat, parseWord w with
+    | some p, some w => toString (allFits p w).length
+    | _, _ => "bad-op"
   | ["ROT", w, k, feats, track] =>
     match parseWord w, k.toInt?, parseFeatures feats, parseNats track with
     | some w, some k, some fs, some tr =>
